@@ -52,49 +52,68 @@ def _head_sims(path, nsims, out):
     return min(n, nsims)
 
 
-def _validate(ctx, label, trace, env, plan, impl_sims):
-    if not trace or not os.path.exists(trace) or os.path.getsize(trace) == 0:
-        ctx.inconclusive.append("%s: no trace recorded" % label)
+def _validate(ctx, traces, plan, impl_sims):
+    """traces: [(label, trace file, env of the driver run, validate at implementation level)].
+    All executions are concatenated and validated by one TLC run per trace specification."""
+    allp = os.path.join(ctx.scratch, "trace-all.ndjson")
+    implp = os.path.join(ctx.scratch, "trace-impl.ndjson")
+    cases = []  # one per execution of trace-all: (label, case json, env)
+    with open(allp, "w") as g, open(implp, "w") as gi:
+        for label, trace, env, impl in traces:
+            if not trace or not os.path.exists(trace) or os.path.getsize(trace) == 0:
+                ctx.inconclusive.append("%s: no trace recorded" % label)
+                continue
+            body = open(trace).read()
+            g.write(body)
+            for ln in open(trace + ".cases").read().splitlines():
+                cases.append((label, ln, env))
+            if impl:
+                tmp = os.path.join(ctx.scratch, "impl-part.ndjson")
+                _head_sims(trace, impl_sims, tmp)
+                gi.write(open(tmp).read())
+    if not cases:
         return
-    files = {"trace.ndjson": trace, "ResizePlan.tla": plan}
-    r = vlib.tlc("TraceResizeAbs", "TraceResizeAbs", ctx.scratch, files=files, workers=1, timeout=900)
-    ctx.tlc_runs.append(("TraceResizeAbs", label, r))
+    r = vlib.tlc("TraceResizeAbs", "TraceResizeAbs", ctx.scratch, files={"trace.ndjson": allp, "ResizePlan.tla": plan},
+                 workers=1, timeout=1200)
+    ctx.tlc_runs.append(("TraceResizeAbs", "all drivers", r))
     ok, prefix = _verdict(r)
-    nev = sum(1 for _ in open(trace))
-    vlib.log("trace %s: %d events, abstract spec: %s" % (label, nev, "accepted" if ok else "REJECTED at %d" % prefix if ok is False else "no verdict"))
-    if ok is None or r.violation and ok is not False:
-        ctx.inconclusive.append("%s: TLC gave no verdict on the trace (abs)\n%s" % (label, (r.violation or r.out_tail)[-1500:]))
+    lines = open(allp).read().splitlines()
+    nev = len(lines)
+    vlib.log("traces: %d executions, %d events, abstract spec: %s"
+             % (len(cases), nev, "accepted" if ok else "REJECTED at %d" % prefix if ok is False else "no verdict"))
+    if ok is None:
+        ctx.inconclusive.append("TLC gave no verdict on the traces (abs)\n%s" % ((r.violation or r.out_tail)[-1500:]))
         return
     if ok:
         ctx.validated += nev
     else:
-        lines = open(trace).read().splitlines()
         k = sum(1 for ln in lines[:prefix + 1] if '"ev":"reset"' in ln) - 1
-        cases = open(trace + ".cases").read().splitlines()
-        case = json.loads(cases[max(k, 0)])
+        label, cj, env = cases[max(k, 0)]
+        case = json.loads(cj)
         case["trace_check"] = "abs"
-        ev = lines[min(prefix, len(lines) - 1)]
+        ev = lines[min(prefix, nev - 1)]
         ctx.failures.append({
             "match": {"symptom": "trace_rejected", "spec": "abs", "gran": case.get("gran", ""),
                       "event": json.loads(ev).get("ev", "")},
-            "detail": "%s: recorded execution %d rejected by TraceResizeAbs at event %d: %s" % (label, k, prefix, ev),
+            "detail": "%s: recorded execution rejected by TraceResizeAbs at event %d: %s" % (label, prefix, ev),
             "replay": case, "_pkg": PKG, "_test": "TestC22", "_env": {k2: str(v) for k2, v in env.items()}, "_race": False})
         return
     # implementation-level specification: drift only
-    sub = os.path.join(ctx.scratch, "impl-" + os.path.basename(trace))
-    n = _head_sims(trace, impl_sims, sub)
-    r2 = vlib.tlc("TraceResize", "TraceResize", ctx.scratch, files={"trace.ndjson": sub, "ResizePlan.tla": plan},
-                  workers=1, deque=True, timeout=900)
-    ctx.tlc_runs.append(("TraceResize", label, r2))
+    if os.path.getsize(implp) == 0:
+        return
+    r2 = vlib.tlc("TraceResize", "TraceResize", ctx.scratch, files={"trace.ndjson": implp, "ResizePlan.tla": plan},
+                  workers=1, deque=True, timeout=1200)
+    ctx.tlc_runs.append(("TraceResize", "all drivers", r2))
     ok2, p2 = _verdict(r2)
-    vlib.log("trace %s: %d executions, implementation-level spec: %s" % (label, n, "accepted" if ok2 else "rejected at %d" % p2 if ok2 is False else "no verdict"))
+    il = open(implp).read().splitlines()
+    vlib.log("traces: %d events, implementation-level spec: %s"
+             % (len(il), "accepted" if ok2 else "rejected at %d" % p2 if ok2 is False else "no verdict"))
     if ok2 is False:
-        ev = open(sub).read().splitlines()[min(p2, max(0, sum(1 for _ in open(sub)) - 1))]
-        msg = "MODEL-DRIFT: %s: execution accepted by ResizeAbs but not by Resize at event %d: %s" % (label, p2, ev)
+        msg = "MODEL-DRIFT: execution accepted by ResizeAbs but not by Resize at event %d: %s" % (p2, il[min(p2, len(il) - 1)])
         print(msg, flush=True)
         ctx.notes.append(msg)
     elif ok2 is None:
-        ctx.notes.append("%s: no verdict from TraceResize (implementation-level): %s" % (label, (r2.violation or r2.out_tail)[-600:]))
+        ctx.notes.append("no verdict from TraceResize (implementation-level): %s" % ((r2.violation or r2.out_tail)[-600:]))
 
 
 def _repo_trace(ctx, label, pkg, run_re, timeout):
@@ -213,35 +232,42 @@ def run(ctx):
     ctx.tlc_runs[-1][2].violation = None  # expected counterexample
 
     # 2. (G)+(A)
+    two = json.dumps({"Members": ["n0", "n1"], "ReplicaN": 2, "PartN": 12, "Hasher": "mod", "Shards": 8})
     runs = []
+    # every interleaving of one ADD job (one node to answer) with abort / duplicate / error
+    runs.append(("C22_gen_fine2", "fine", dict(mode="bfs", timeout=600), {"VERIF_CFG": two}, False))
     if thorough:
-        runs.append(("C22_gen_sync5", "sync", dict(mode="bfs", timeout=1500)))
-        runs.append(("C22_gen_sync7", "sync", dict(mode="simulate", num=3000, depth=200, timeout=900)))
-        runs.append(("C22_gen_fine", "fine", dict(mode="simulate", num=4000, depth=26, timeout=900)))
+        # every interleaving of one REMOVE job (two nodes to answer) with abort / duplicate / error
+        runs.append(("C22_gen_fine3", "fine", dict(mode="bfs", timeout=900), {}, True))
+        runs.append(("C22_gen_sync4", "sync", dict(mode="bfs", timeout=1500), {}, True))
+        runs.append(("C22_gen_sync7", "sync", dict(mode="simulate", num=3000, depth=200, timeout=900), {}, True))
+        runs.append(("C22_gen_fine", "fine", dict(mode="simulate", num=4000, depth=26, timeout=900), {}, True))
     else:
-        runs.append(("C22_gen_sync7", "sync", dict(mode="simulate", num=250, depth=200, timeout=600)))
-        runs.append(("C22_gen_fine", "fine", dict(mode="simulate", num=250, depth=26, timeout=600)))
+        runs.append(("C22_gen_sync7", "sync", dict(mode="simulate", num=250, depth=200, timeout=600), {}, True))
+        runs.append(("C22_gen_fine", "fine", dict(mode="simulate", num=250, depth=26, timeout=600), {}, True))
     traces = []
-    for cfg, gran, kw in runs:
+    for cfg, gran, kw, xenv, impl in runs:
         r = ctx.generate("Resize", cfg, files=files, **kw)
         tr = os.path.join(ctx.scratch, "trace-%s.ndjson" % cfg)
         env = {"VERIF_GRAN": gran, "VERIF_TRACE_OUT": tr, "VERIF_TRACE_MAX": 1500 if thorough else 300}
+        env.update(xenv)
         ctx.drive(PKG, "TestC22", beh=r.behaviours, env=env, label="C22/" + cfg, timeout=2400)
-        traces.append(("C22/" + cfg, tr, {"VERIF_GRAN": gran}))
+        renv = {"VERIF_GRAN": gran}
+        renv.update(xenv)
+        traces.append(("C22/" + cfg, tr, renv, impl))
     tr = os.path.join(ctx.scratch, "trace-free.ndjson")
     env = {"VERIF_GRAN": "free", "VERIF_N": 1500 if thorough else 150, "VERIF_TRACE_OUT": tr,
            "VERIF_TRACE_MAX": 1500 if thorough else 300}
     ctx.drive(PKG, "TestC22", env=env, label="C22/free", timeout=2400)
-    traces.append(("C22/free", tr, {"VERIF_GRAN": "free"}))
+    traces.append(("C22/free", tr, {"VERIF_GRAN": "free"}, True))
 
     # 3. (B)
-    for label, tr, env in traces:
-        _validate(ctx, label, tr, env, plan, impl_sims=400 if thorough else 60)
+    _validate(ctx, traces, plan, impl_sims=300 if thorough else 50)
     # the repository's own resize tests, hooks recording (abstract specification only: the
     # implementation-level constants describe the harness's cluster)
-    repo_runs = [("root", ".", "TestCluster_ResizeStates", 600)]
+    repo_runs = []
     if thorough:
-        repo_runs.append(("server", "./server/", "TestClusterResize", 900))
+        repo_runs = [("root", ".", "TestCluster_ResizeStates", 600), ("server", "./server/", "TestClusterResize", 900)]
     for label, pkg, rx, to in repo_runs:
         tr = _repo_trace(ctx, label, pkg, rx, to)
         if tr is None:
